@@ -316,3 +316,12 @@ def bond_dims_exact_of(mp):
     dims = [int(np.prod(np.asarray(mp[i].array).shape[1:-1])) for i in range(len(mp))]
     n = len(dims)
     return [min(int(np.prod(dims[:i])), int(np.prod(dims[i:]))) for i in range(n + 1)]
+
+
+def complexify(mp, rng):
+    """float copy with random phases on every entry (zero pattern, labels and gauge metadata kept; canonical form is not)"""
+    c = mp.to_complex()
+    for i in range(len(c)):
+        t = np.asarray(c[i].array)
+        c[i] = t * np.exp(2j * np.pi * rng.random(t.shape))
+    return c
